@@ -117,6 +117,7 @@ func init() {
 				Run: func(c *Ctx, r *Rep, tier string) {}},
 			{Name: "EVICT-MATCH", What: "the block Put reports as evicted is the block whose entry that Put removed (same map iteration / the b of the removed node) (added after a blind second seed round)", Floor: 4, Run: ruleEvictMatch},
 			{Name: "DROP-COUNT", What: "drop(n): every removal is executed only while the remaining count is ≥ 1 (guard edge or loop invariant) and is counted (added after seed C14-b had been declared out of reach)", Floor: 4, Run: ruleDropCount},
+			{Name: "GET-LOADS-FIRST", What: "the block a cache's Get returns is read from its node before any store to the node's block field, also one inside a helper (remove): Peek and Get agree on what the cache holds (added after sixteenth-round seed C14-r)", Floor: 3, Run: ruleGetLoadsFirst},
 			{Name: "ATOMIC-COMPOSE", What: "a function of the package that works on a shared cache through the Cache interface performs at most one operation on it per path – Free makes room inside the cache's own critical section; only a foreign implementation, which offers no lock to hold, is driven through Cap/Len/Drop (added after the third defect hunt: Free was three operations)", Floor: 7, Run: ruleAtomicCompose},
 			{Name: "FREE-COUNT", What: "each cache's free(n), inside its critical section, hands drop the missing slots n − (cap − len(table)) and answers cap − len(table) ≥ n with the length read after the eviction (\"Free … leave[s] the stated … free slots\")", Floor: 6, Run: ruleFreeCount},
 			{Name: "RESIZE-COUNT", What: "each cache's Resize hands drop the excess len(table) − n (added after eighth-round seed C14-j: cap − n drops blocks that are not in excess)", Floor: 3, Run: ruleResizeCount},
